@@ -12,6 +12,7 @@ import json
 import multiprocessing
 import os
 import shutil
+import sys
 import subprocess
 
 from . import common, tlc
@@ -210,6 +211,42 @@ def query(repo, a, b, cwd, flt):
     return yielded, cwds, raised
 
 
+def cli_output_place(repo, a, b, cwd, name):
+    """run `nbdiff <ref> [<ref>] --out <relative name>` from cwd (in this process): where, relative to the repository,
+    does the output file appear?  None: nowhere"""
+    import contextlib
+    import io
+    from nbdime import nbdiffapp
+    args = {("HEAD~1", "HEAD"): ["HEAD~1", "HEAD"], ("HEAD", "HEAD~1"): ["HEAD", "HEAD~1"], ("HEAD", "WT"): ["HEAD"],
+            ("HEAD~1", "WT"): ["HEAD~1"]}[(a, b)]
+    old, old_env, old_argv = os.getcwd(), dict(os.environ), list(sys.argv)
+    os.chdir(os.path.join(repo.root, cwd))
+    os.environ.clear()
+    os.environ.update(repo.env)
+    sys.argv = ["nbdiff"]
+    try:
+        with contextlib.redirect_stdout(io.StringIO()), contextlib.redirect_stderr(io.StringIO()):
+            try:
+                nbdiffapp.main(args + ["--out", name])
+            except SystemExit:
+                pass
+    except Exception:
+        return "raised"
+    finally:
+        os.chdir(old)
+        os.environ.clear()
+        os.environ.update(old_env)
+        sys.argv = old_argv
+    for dirpath, dirs, files in os.walk(repo.root):
+        if ".git" in dirs:
+            dirs.remove(".git")
+        if name in files:
+            rel = os.path.relpath(dirpath, repo.root)
+            os.unlink(os.path.join(dirpath, name))
+            return "" if rel == "." else rel
+    return None
+
+
 def replay(task):
     k, h, root = task
     d = os.path.join(root, "r%d" % k)
@@ -227,6 +264,14 @@ def replay(task):
                         "cwds": cwds}}
         if raised:
             ev["raised"] = raised
+        # the command line from a sub-directory, writing to a relative file name: the file belongs where the command
+        # was run (the working directory must not have moved while the notebooks are being processed)
+        if (not tag and cwd and flt is None and not raised and (a, b) in (("HEAD~1", "HEAD"), ("HEAD", "WT"), ("HEAD~1", "WT"))
+                and any(e["apath"].endswith(".ipynb") or e["bpath"].endswith(".ipynb") for e in rep)):
+            place = cli_output_place(repo, a, b, cwd, "nbdiff-out-%d.json" % len(events))
+            if place is not None:
+                ev["outwhere"] = enc_text(place)
+                ev["_info"]["output_written_in"] = place
         events.append(ev)
     try:
         ncommits = 1
